@@ -114,6 +114,7 @@ func VC02_Response() {
 	}
 	var vias []pVia
 	head := ""
+	head2 := "" // the same lines with the next hop's transport flipped (UDP <-> TCP), for the second response of R=1
 	for i := 0; i < n; i++ {
 		var v pVia
 		if i == 0 {
@@ -122,17 +123,30 @@ func VC02_Response() {
 			v = genRespVia(L, itoa(i), i >= 2 && X != 1, X == 2)
 		}
 		vias = append(vias, v)
+		text2 := v.text
+		if i == 1 && (v.transport == "UDP" || v.transport == "TCP") {
+			text2 = "SIP/2.0/" + map[string]string{"UDP": "TCP", "TCP": "UDP"}[v.transport] + v.text[len("SIP/2.0/UDP"):]
+		}
 		if i > 0 && rt.Bool("comma") {
 			// a comma-separated list may be written with blanks around the comma
-			head += []string{",", ", ", " ,\t "}[rt.Choice("comma-blanks", 3)] + v.text
+			sep := []string{",", ", ", " ,\t "}[rt.Choice("comma-blanks", 3)]
+			head += sep + v.text
+			head2 += sep + text2
 		} else {
 			if i > 0 {
 				head += "\r\n"
+				head2 += "\r\n"
 			}
-			head += []string{"Via", "v", "VIA"}[rt.Choice("vianame", 3)] + ": " + v.text
+			name := "Via"
+			if X != 2 {
+				name = []string{"Via", "v", "VIA"}[rt.Choice("vianame", 3)]
+			}
+			head += name + ": " + v.text
+			head2 += name + ": " + text2
 		}
 	}
 	head += "\r\n"
+	head2 += "\r\n"
 	status := rt.Int("status", 100, 699)
 	method, toTag := "OPTIONS", ";tag=b"
 	if X == 1 {
@@ -177,22 +191,34 @@ func VC02_Response() {
 	if rt.Param("R") == 1 {
 		// a further response of the same transaction carries byte-identical Via lines (the 200 after the 180, a
 		// retransmission): it is relayed exactly like the first one, whatever decoding the first one left behind
-		text2 := "SIP/2.0 200 OK\r\n" + head +
+		// ... or it belongs to another transaction towards the same host and port over the other transport (UDP <-> TCP):
+		// each response goes over the transport its own Via entry names, whatever was used for that address before
+		flip := rt.Bool("second-response-other-transport")
+		h2, want2, vias2 := head, want, vias
+		if flip {
+			h2 = head2
+			o := vias[1]
+			o.transport = map[string]string{"UDP": "TCP", "TCP": "UDP"}[o.transport]
+			o.text = "SIP/2.0/" + o.transport + vias[1].text[len("SIP/2.0/UDP"):]
+			want2, _ = o.dest()
+			vias2 = append([]pVia{vias[0], o}, vias[2:]...)
+		}
+		text2 := "SIP/2.0 200 OK\r\n" + h2 +
 			"From: <sip:alice@example.com>;tag=a\r\nTo: <sip:bob@example.net>" + toTag + "\r\nCall-ID: c1\r\nCSeq: 1 " + method + "\r\nContent-Length: 0\r\n\r\n"
 		rt.Assert(w.deliver(text2, "10.0.1.1", 5060, true), "second response decodes")
 		sent2 := w.sentAll()
-		rt.Assert(len(sent2) == 2, "second response with the same Via lines: relayed exactly once as well")
+		rt.Assert(len(sent2) == 2, "second response: relayed exactly once as well")
 		if len(sent2) == 2 {
 			k := 1
 			if sent2[0].bytes != sent[0].bytes || sent2[0].dest != sent[0].dest {
 				k = 0 // sentAll lists by channel, not by time
 			}
-			rt.Assert(sent2[k].dest == want, "second response: same next hop")
+			rt.Assert(sent2[k].dest == want2, "second response: sent over its own next entry's transport to that entry's address")
 			got2 := refRead(sent2[k].bytes).listOf("via")
 			rt.Assert(len(got2) == n-1, "second response: exactly the topmost Via entry is discarded")
 			if len(got2) == n-1 {
 				for i := 1; i < n; i++ {
-					rt.Assert(got2[i-1] == vias[i].text, "second response: remaining Via entries intact and in order")
+					rt.Assert(got2[i-1] == vias2[i].text, "second response: remaining Via entries intact and in order")
 				}
 			}
 		}
